@@ -27,3 +27,13 @@ def sweep_jobs(make_job, quick, modes=("det", "decl", "spec"), Ds=(1, 2)):
         for D, m in use:
             jobs.append(make_job(D, m, dict(v)))
     return jobs
+
+
+# value *spellings* of options and problem ingredients that are valid but unusual (used by C09 only: some of them change
+# the incumbent-update policy, which other properties fix in their quantifier)
+C09_EXTRA = [
+    {"max_fun_evals": 40.0}, {"max_fun_evals": 70.0, "noise_final_samples": 10}, {"poll_mesh_multiplier": 2}, {"search_acq_fcn": ("acq_LCB", 2.0)},
+    {"sloppy_improvement": False}, {"max_iter": 4.0},
+    {"skip_poll_after_search": False}, {"search_size_locked": False}, {"search_mesh_expand": 1}, {"force_poll_mesh": True}, {"max_poll_grid_number": 1},
+    {"stobads": True}, {"opp_stobads": False, "stobads": True},
+]
